@@ -10,7 +10,7 @@ import (
 
 // C18 — activation functions match their definitions, ranges and names.
 //
-// E4: every float32 bit pattern (thorough) / every float32 whose low 16
+// E4: every float32 bit pattern (thorough) / every float32 whose low 10
 // mantissa bits are zero (quick), widened to float64 and walked in numeric
 // order, plus breakpoint neighbourhoods and extreme float64 magnitudes, for
 // every registered scalar function: closed form, range, monotonicity. All 256
@@ -197,13 +197,13 @@ func c18Extras() []float64 {
 }
 
 func runC18(c *Ctx) {
-	step := uint64(1 << 16)
+	step := uint64(1 << 10)
 	if !c.Quick() {
 		step = 1
 	}
-	c.Rule = fmt.Sprintf("scalar functions: every float32 bit pattern with the low %d bits zero (finite values, walked in numeric order so monotonicity is a comparison of numeric neighbours), widened to float64, plus +-{0,1,2,3} ulps around every breakpoint, -0.0, powers of ten 1e-300..1e300 and exp-overflow thresholds; x 20 registered functions: closed form within 4 ulps or 1e-12 relative + 4e-16 absolute, finite, inside documented range, non-decreasing (<=4 ulps slack) for the sigmoid family/tanh/linear/clipped/step. lookups: all 256 type codes and every registered name with every single-character deletion/substitution. modules: all vectors of length 1..3 over 8 values. non-trivial = distinct (function, input) pairs / distinct lookup keys", map[bool]int{true: 16, false: 0}[c.Quick()])
+	c.Rule = fmt.Sprintf("scalar functions: every float32 bit pattern with the low %d bits zero (finite values, walked in numeric order so monotonicity is a comparison of numeric neighbours), widened to float64, plus +-{0,1,2,3} ulps around every breakpoint, -0.0, powers of ten 1e-300..1e300 and exp-overflow thresholds; x 20 registered functions: closed form within 4 ulps or 1e-12 relative + 4e-16 absolute, finite, inside documented range, non-decreasing (<=4 ulps slack) for the sigmoid family/tanh/linear/clipped/step. lookups: all 256 type codes and every registered name with every single-character deletion/substitution. modules: all vectors of length 1..3 over 8 values. non-trivial = distinct (function, input) pairs / distinct lookup keys", map[bool]int{true: 10, false: 0}[c.Quick()])
 	total := (uint64(1) << 32) / step
-	chunk := uint64(1 << 14)
+	chunk := uint64(1 << 16)
 	nChunks := int((total + chunk - 1) / chunk)
 	var evals int64
 	var capped int32
